@@ -383,6 +383,12 @@ FIXED += [
     {"id": "unionstart", "start": "S", "classes": [
         _c("S", "", abstract=True), _c("Lit", "", [("v", I01)]), _c("Deep", "", [("l", ("sym", "S"))]),
         _c("A", "S", [("u", ("union", [("sym", "Lit"), ("sym", "Deep")]))])]},
+    # three abstract layers between a field's declared type and the concrete class of its value
+    {"id": "deepabs", "start": "Node", "classes": [
+        _c("Node", "", abstract=True), _c("Expr", "Node", abstract=True, style="decorator"),
+        _c("Lit", "Expr", abstract=True, style="decorator"),
+        _c("One", "Lit", []), _c("IntLit", "Lit", [("v", I03)]), _c("Neg", "Expr", [("e", ("sym", "Expr"))]),
+        _c("Pair", "Node", [("a", ("sym", "Node")), ("b", ("sym", "Node"))])]},
     # a recursive production whose own minimum depth is 3 (a non-recursive tail chain below it)
     {"id": "tailchain", "start": "S", "classes": [
         _c("S", "", abstract=True), _c("T1", "", abstract=True), _c("T2", "", abstract=True),
